@@ -221,6 +221,19 @@ package hotline
 //@ define wire_TrackerReg(t) := cat(seq(0,1), bytes(t.Port), be16(t.UserCount), seq(0,0), bytes(t.PassID), seq(len(t.Name)), bytes(t.Name), seq(len(t.Description)), bytes(t.Description), seq(len(t.Password)), bytes(t.Password))
 //@ define inv_TrackerReg(t) := len(t.Name) <= 255 && len(t.Description) <= 255 && len(t.Password) <= 255 && 0 <= t.UserCount && t.UserCount <= 65535
 
+// Tracker listing record (what a tracker sends back): address 4, port 2, user count 2, 2 unused,
+// name size 1, name, description size 1, description.  The decoder takes each field from its
+// place in a complete record and reports the record's length.
+//@ func (s *ServerRecord) Write(b []byte) (n int, err error)
+//@   property C01
+//@   requires s != nil && len(b) >= 13 && len(b) >= 12 + b[10] && len(b) >= 12 + b[10] + b[11+b[10]]
+//@   ensures err == nil && n == 12 + old(b[10]) + old(b[11+b[10]])
+//@   ensures bytes(s.IPAddr) == old(bytes(b)[0:4]) && bytes(s.Port) == old(bytes(b)[4:6]) && bytes(s.NumUsers) == old(bytes(b)[6:8])
+//@   ensures s.NameSize == old(b[10]) && len(s.Name) == old(b[10]) && s.DescriptionSize == old(b[11+b[10]]) && len(s.Description) == s.DescriptionSize
+//@   ensures bytes(s.Name) == old(bytes(b)[11:11+b[10]]) && bytes(s.Description) == old(bytes(b)[12+b[10]:12+b[10]+b[11+b[10]]])
+//@   modifies *s
+//@   nopanic
+
 //@ func (tr *TrackerRegistration) Read(p []byte) (n int, err error)
 //@   cursor wire_TrackerReg readOffset inv_TrackerReg
 
@@ -724,6 +737,15 @@ package hotline
 
 //@ func NewTime(t time.Time) (b Time)
 //@   modifies nothing
+
+// Date stamp: year 2, milliseconds 2 (always zero), seconds since the start of that year 4.
+//@ func NewTime(t time.Time) (b Time)
+//@   property C01
+//@   before call PutUint16 assert arg2 == callres("(time.Time).Year#2") % 65536
+//@   before call time.Date assert arg0 == callres("(time.Time).Year#1") && arg1 == 1 && arg2 == 1 && arg3 == 0 && arg4 == 0 && arg5 == 0 && arg6 == 0
+//@   before call (time.Time).Sub assert same(arg0, t) && same(arg1, callres("time.Date"))
+//@   ensures b[2] == 0 && b[3] == 0
+//@   ensures b[0] == callarg("PutUint16", 1)[0] && b[1] == callarg("PutUint16", 1)[1] && b[4] == callarg("PutUint32", 1)[0] && b[7] == callarg("PutUint32", 1)[3]
 //@ func fileTypeFromInfo(info fs.FileInfo) (ft fileType, err error)
 //@   modifies nothing
 
